@@ -985,7 +985,11 @@ fn out_kind(s: &OutGlyph) -> &'static str {
 /// Deviation switches of the reference model. A disagreement is attributed to switch K (key `C12:deviation:K`) only if
 /// the *whole* output of that evaluation (every glyph, every metric, every MVAR field) agrees with the reference
 /// evaluated with exactly K switched on.
-const SWITCHES: [(&str, EvalOpts); 2] = [
+/// Neither switch describes the current tree (IUP was never missing; the region validity clauses were repaired in /repo,
+/// see KNOWN_FINDINGS.txt), so none is a candidate: a return of either behaviour is reported under the generic keys.
+const SWITCHES: [(&str, EvalOpts); 0] = [];
+#[allow(dead_code)]
+const RETIRED_SWITCHES: [(&str, EvalOpts); 2] = [
     ("inferred-deltas-not-applied", EvalOpts { no_region_validity_clauses: false, no_iup: true }),
     ("region-validity-clauses-of-the-scalar-algorithm-not-applied", EvalOpts { no_region_validity_clauses: true, no_iup: false }),
 ];
